@@ -35,6 +35,7 @@ TOKEN_RE = re.compile(r"<([^#<>\s]+)#(\d+)@([^ >]+) u=([^ >]*) g=([^ >]*) n=([^ 
 STORE_KINDS = ("dict", "dictp", "fs", "fs2", "fsx", "fs+d", "dd", "ns", "ns+f", "ns+af")
 NAME_POOL = ("a", "sub/d", "b", "c")
 TENANTS = ("t1", "t2")
+NS_VALUES = ("t1", "t2", 0)   # a falsy namespace value is still a namespace
 
 
 class Violation(Exception):
@@ -47,7 +48,7 @@ class Violation(Exception):
 # ----------------------------------------------------------------- sources
 def make_source(name: str, loc: str, ver: int, struct: dict) -> str:
     ident = f"{name}#{ver}@{loc}"
-    head = "<" + ident + " u={{ user }} g={{ gv }} n={{ tenant }} p={{ prof.name }}>{{ matter_ns }}"
+    head = "<" + ident + " u={{ user }} g={{ gv }} n={{ tenant }} p={{ prof.name }}>{{ matter_ns }}\u00e9"
     k = struct.get("k", "plain")
     t = struct.get("t", "a")
     if k == "plain":
@@ -123,13 +124,14 @@ class World:
         elif kind == "dd":
             self.store = storage.DictStore(2, parked=cfg.get("parked", False))
         elif kind == "fs":
-            self.store = storage.FsStore(1)
+            self.store = storage.FsStore(1, encoding=cfg.get("encoding", "utf-8"))
         elif kind == "fs2":
-            self.store = storage.FsStore(2)
+            self.store = storage.FsStore(2, encoding=cfg.get("encoding", "utf-8"))
         elif kind == "fsx":
-            self.store = storage.FsStore(1, ext=".liquid")
+            self.store = storage.FsStore(1, ext=".liquid", encoding=cfg.get("encoding", "utf-8"))
         elif kind == "fs+d":
-            self.store = storage.FsStore(1, with_dict=True, parked=cfg.get("parked", False))
+            self.store = storage.FsStore(1, with_dict=True, parked=cfg.get("parked", False),
+                                         encoding=cfg.get("encoding", "utf-8"))
         elif kind.startswith("ns"):
             fr = {"ns": "none", "ns+f": "sync", "ns+af": "async"}[kind]
             self.store = storage.NsStoreWrap(self.nskey, fr, matter=cfg.get("matter", False))
@@ -196,7 +198,7 @@ class World:
     # ------------------------------------------------------------ storage
     def locs(self, name: str) -> list[str]:
         if self.cfg["store"].startswith("ns"):
-            return [f"{t}/{name}" for t in (*TENANTS, "_")]
+            return [f"{t}/{name}" for t in (*TENANTS, "_", "0")]
         return self.store.locs(name)
 
     def write(self, loc: str, name: str, struct: dict, mt: str) -> int:
@@ -559,7 +561,7 @@ class World:
 
 # ------------------------------------------------------------- execution
 def _kw(w: World, op: dict) -> dict:
-    return {w.nskey: op["ns_kw"]} if (w.nskey and op.get("ns_kw")) else {}
+    return {w.nskey: op["ns_kw"]} if (w.nskey and op.get("ns_kw") is not None) else {}
 
 
 def do_load(w: World, op: dict):
@@ -956,6 +958,17 @@ def apply_mutation(w: World, m: dict) -> None:
         if w.store.content(loc) is not None:
             w.count("F5_delete")
         w.delete(loc)
+    elif m["op"] == "dirify":
+        # F12: the source file is replaced by a DIRECTORY of the same name: stat succeeds, open fails
+        if not hasattr(w.store, "fs") or loc.startswith("d0:"):
+            return
+        w.store.fs.files.pop(loc, None)
+        w.store.fs.dirs.add(loc)
+        w.vers.pop(loc, None)
+        w.store._note(loc, None)
+        w.wlog.append((w.store.write_seq, loc, None, None))
+        w.fault_w.append((w.store.write_seq, "delete"))
+        w.count("F12_file_replaced_by_directory")
     elif m["op"] in ("blockdir", "unblockdir"):
         # F11: the directory holding the source is replaced by a regular file (a botched deploy)
         if not hasattr(w.store, "fs") or loc.startswith("d0:") or "/" not in name:
@@ -1005,7 +1018,7 @@ def execute(plan: dict) -> dict:
                     t, twin = do_load(w, op)
                     if t is not None:
                         do_render(w, {**op, "id": f"{op['id']}r", "g_bound": op.get("g")}, t, twin)
-                elif k in ("write", "delete", "blockdir", "unblockdir"):
+                elif k in ("write", "delete", "blockdir", "unblockdir", "dirify"):
                     apply_mutation(w, op)
                 elif k == "unavail":
                     unavailable_next = True
@@ -1095,6 +1108,7 @@ def gen_plan(seed: int, tier: str) -> dict:
         "parked": rng.random() < 0.5,
         "matter": rng.random() < 0.3,
         "thread_safe": rng.random() < 0.3,
+        "encoding": rng.choice(["utf-8", "utf-8", "latin-1", "utf-16"]),
         "policy": rng.choice(simsched.POLICIES),
     }
     names = list(NAME_POOL[: rng.choice([2, 3, 3, 4])])
@@ -1121,7 +1135,7 @@ def gen_plan(seed: int, tier: str) -> dict:
     placed: dict[str, set[int]] = {n: set() for n in names}
     for n in names:
         if is_ns:
-            for li in rng.sample(range(3), rng.choice([1, 2, 3])):
+            for li in rng.sample(range(4), rng.choice([1, 2, 3, 4])):
                 init.append({"op": "write", "name": n, "li": li, "struct": struct(), "mt": "adv"})
                 placed[n].add(li)
         else:
@@ -1134,7 +1148,7 @@ def gen_plan(seed: int, tier: str) -> dict:
     def data():
         d = {"user": rng.choice(users)}
         if nskey and rng.random() < 0.7:
-            d["tenant"] = rng.choice(TENANTS)
+            d["tenant"] = rng.choice(NS_VALUES)
         return d
 
     def lr_fields():
@@ -1147,7 +1161,7 @@ def gen_plan(seed: int, tier: str) -> dict:
             f["name"] = rng.choice(["./" + base, base.replace("/", "//") if "/" in base else "./" + base,
                                     base + ".liquid" if store == "fsx" else "./" + base])
         if nskey and rng.random() < 0.7:
-            f["ns_kw"] = rng.choice(TENANTS)
+            f["ns_kw"] = rng.choice(NS_VALUES)
         r = rng.random()
         if r < 0.45:
             f["g"] = {"gv": rng.choice(["G1", "G2", "G3"])}
@@ -1163,7 +1177,7 @@ def gen_plan(seed: int, tier: str) -> dict:
         n = rng.choice(names)
         r = rng.random()
         if is_ns:
-            li = rng.randrange(3)
+            li = rng.randrange(4)
         elif allow_shadow or n_locs == 1:
             li = rng.randrange(n_locs)
         else:
@@ -1171,7 +1185,10 @@ def gen_plan(seed: int, tier: str) -> dict:
             li = min(placed[n]) if placed[n] and rng.random() < 0.8 else n_locs - 1
             if placed[n] and li < min(placed[n]):
                 li = min(placed[n])
-        if r < 0.05 and "/" in n and store.startswith("fs"):
+        if r < 0.03 and store.startswith("fs"):
+            placed[n].discard(li)
+            return {"op": "dirify", "name": n, "li": li}
+        if r < 0.07 and "/" in n and store.startswith("fs"):
             return {"op": rng.choice(["blockdir", "blockdir", "unblockdir"]), "name": n, "li": li}
         if r < 0.22:
             placed[n].discard(li)
